@@ -154,3 +154,28 @@ func KindName(t xtoken.Token) string {
 	}
 	return "T" + strconv.Itoa(int(t))
 }
+
+// ScanAll is like Scan but keeps going over scanner errors (nerr counts them); ok is false
+// only if the scanner panicked or did not reach EOF.
+func ScanAll(src []byte) (toks []Tok, nerr int, ok bool) {
+	ok = true
+	defer func() {
+		if e := recover(); e != nil {
+			ok = false
+		}
+	}()
+	fset := xtoken.NewFileSet()
+	f := fset.AddFile("", -1, len(src))
+	var s xscanner.Scanner
+	s.Init(f, src, func(xtoken.Position, string) { nerr++ }, 0)
+	for i := 0; i < len(src)+2; i++ {
+		pos, tok, lit := s.Scan()
+		off := f.Offset(pos)
+		toks = append(toks, Tok{tok, off, off + len(lit), lit})
+		if tok == xtoken.EOF {
+			return
+		}
+	}
+	ok = false
+	return
+}
